@@ -277,6 +277,26 @@ func runC02(t *testing.T, tape *sim.Tape, tier string) *Outcome {
 		want = append(want, v)
 		data = append(data, v.Encode()...)
 	}
+	if tape.Draw(48, "longstream") == 47 { // 0 stays the cheap choice
+		// a long-lived stream: one small value a few thousand times in front of the generated ones (whatever a
+		// parser keeps across values must not wear out)
+		rep := []resp.Value{resp.NullArray(), resp.Ar(), resp.NullBulk(), resp.St(""), resp.In(0), resp.Ar(resp.Ar()), resp.Bs("")}[tape.Draw(7, "repval")]
+		n := 1000 + tape.Draw(3000, "repcount")
+		var pre []resp.Value
+		var preData []byte
+		for i := 0; i < n; i++ {
+			if rep.K == resp.Array && rep.Null {
+				// the framework has no null array: "*-1" is returned as an empty array
+				pre = append(pre, resp.Ar())
+			} else {
+				pre = append(pre, rep)
+			}
+			preData = append(preData, rep.Encode()...)
+		}
+		want = append(pre, want...)
+		data = append(preData, data...)
+		o.stat("long_repetitive_streams", 1)
+	}
 	if tape.Draw(64, "widearray") == 63 { // 0 stays the cheap choice
 		// an array with very many elements (element counts around 2^16) followed by one more value
 		n := []int{65535, 65536, 65537, 70000, 131073}[tape.Draw(5, "width")]
